@@ -511,6 +511,19 @@ theorem irr_cmd (fuel : Nat) (ih : Irr fuel) :
     | break_ d =>
       simp only [applyResult_errexit, applyErrexit_stack, hc0]
       exact rel_mk ⟨e0, rfl⟩
+  | asyncWait body =>
+    simp only [execCmd]
+    obtain ⟨c1, r, e1, hx, hy⟩ := rel_cases
+      (ih.list (s.push .subshell) (({ s with errexit := e0 } : St).push .subshell) body ⟨e0, rfl⟩ (cond_push s _ hc))
+    rw [hx, hy]
+    cases r with
+    | outOfFuel => exact rel_mk ⟨e0, rfl⟩
+    | continue_ =>
+      simp only [St.applyResult, applyErrexit_stack, hc0]
+      exact rel_mk ⟨e0, rfl⟩
+    | break_ d =>
+      simp only [applyResult_errexit, applyErrexit_stack, hc0]
+      exact rel_mk ⟨e0, rfl⟩
   | ifc cond body elifs els =>
     simp only [execCmd]
     have b1 := (bal fuel).list (s.push .condition) cond
